@@ -111,3 +111,46 @@ def site(f: FuncInfo, node: Optional[ast.AST] = None, what: str = "") -> str:
     if what:
         s += f" [{what}]"
     return s
+
+
+# --------------------------------------------------------------------------- guard valuation helper (E3)
+class Guards:
+    """Reachability of statements of one function under valuations of named boolean atoms."""
+
+    def __init__(self, f: FuncInfo, matcher: Callable[[ast.AST], Optional[str]]):
+        self.f = f
+        self.g = C.cfg_of(f.node)
+        self.matcher = matcher
+        self.atoms_seen: Set[str] = set()
+        for n in ast.walk(f.node):
+            a = matcher(n)
+            if a:
+                self.atoms_seen.add(a.lstrip("!"))
+
+    def reach(self, valuation: Dict[str, bool]) -> Set[int]:
+        def val(e):
+            a = self.matcher(e)
+            if a is not None and a.lstrip("!") in valuation:
+                v = valuation[a.lstrip("!")]
+                return (not v) if a.startswith("!") else v
+            return None
+
+        return C.reach_under(self.g, val)
+
+    def node_of_expr(self, e: ast.AST) -> Optional[int]:
+        return self.g.node_containing(e)
+
+
+def bool_param_atoms(names: Dict[str, str]) -> Callable[[ast.AST], Optional[str]]:
+    """matcher for parameters used as booleans: {param name: atom name}"""
+
+    def m(e):
+        if isinstance(e, ast.Name) and e.id in names:
+            return names[e.id]
+        return None
+
+    return m
+
+
+def explicit_raises(g: C.CFG) -> List[int]:
+    return [n for n in g.nodes() if g.kind[n] == "raise"]
